@@ -62,6 +62,12 @@ S0(P) == [ pc   |-> [a \in Actors(P) |-> 1],
            kt   |-> [a \in Actors(P) |-> -1],          \* kill time (absolute date), -1 = none
            gr   |-> [a \in Actors(P) |-> FALSE],       \* MC granularity: the pending acquisition of a has been granted
            susp |-> [a \in Actors(P) |-> FALSE],       \* a is suspended (Actor::suspend): it observes nothing until resumed
+           ar   |-> [a \in Actors(P) |-> FALSE],       \* a start record of a is kept by its host (Actor::set_auto_restart)
+           aron |-> [a \in Actors(P) |-> FALSE],       \* the current incarnation of a has the auto-restart flag
+           arl  |-> [a \in Actors(P) |-> <<>>],        \* callbacks the next incarnation inherits (list of the registering one)
+           ark  |-> [a \in Actors(P) |-> -1],          \* kill time / daemon flag recorded with the start record
+           ard  |-> [a \in Actors(P) |-> FALSE],
+           reg  |-> [a \in Actors(P) |-> FALSE],       \* the current incarnation is the one whose callback list the record shares
            hoff |-> [a \in Actors(P) |-> FALSE],       \* host of actor a (one host per actor) is off
            loff |-> FALSE,                             \* the link is off
            now  |-> 0,
@@ -225,14 +231,15 @@ RECURSIVE AnswerSet(_, _, _)
 AnswerSet(s, as, r) == IF as = {} THEN s ELSE LET a == CHOOSE x \in as : TRUE IN AnswerSet(Answer(s, a, r), as \ {a}, r)
 \* the actor is gone: its joiners are released, what it still took part in is cancelled
 Finish(P, s, a, how) ==
-  AnswerSet(ExitCleanup(P, [s EXCEPT !.ph[a] = how, !.kt[a] = -1, !.tmr[a] = -1, !.blk[a] = NoBlk, !.susp[a] = FALSE], a),
+  AnswerSet(ExitCleanup(P, [s EXCEPT !.ph[a] = how, !.arl[a] = IF s.reg[a] THEN s.oe[a] ELSE @, !.reg[a] = FALSE, !.aron[a] = FALSE, !.kt[a] = -1, !.tmr[a] = -1, !.blk[a] = NoBlk, !.susp[a] = FALSE], a),
             Joiners(P, s, a), "ok")
 \* ActorImpl::exit(): the victim leaves every queue, its pending timer is dropped, its activities are cancelled; it will run
 \* once more, only to die (ForcefulKillException)
 KillActor(P, s, t) ==
   IF ~Alive(s, t) \/ s.ph[t] \in {"dying", "exiting"} THEN s
-  ELSE IF s.ph[t] = "run" /\ s.pc[t] = 1 /\ s.sub[t] = 1
-  THEN Finish(P, s, t, "dead")      \* created but never scheduled: it dies without running any code
+  ELSE IF s.ph[t] = "run" /\ s.pc[t] = 1 /\ s.sub[t] = 1 /\ s.oe[t] = <<>>
+  THEN Finish(P, s, t, "dead")      \* created but never scheduled: it dies without running any code (a restarted incarnation
+                                    \* still runs the callbacks it inherited: general case below)
   ELSE LET b == s.blk[t]
            q == CASE b.kind = "sem" -> [s EXCEPT !.sq[b.o] = RemoveFirst(@, t)]
                   [] b.kind = "cv"  -> [s EXCEPT !.cq[b.o] = RemoveFirst(@, [a |-> t, m |-> b.m])]
@@ -283,6 +290,15 @@ Suspend(s, o) == [s EXCEPT !.susp[o] = TRUE]
 \* (an actor that suspends itself is answered at once, and then waits like the others for somebody to resume it)
 Resume(s, o) == [s EXCEPT !.susp[o] = FALSE]
 
+\* ------------------------------------------------------------------ auto-restart (C11)
+\* ActorImpl::create(ProcessArg*): same code from its first operation, callbacks copied from the recorded list, kill time if
+\* still in the future, daemon flag, auto-restart flag; obs / ov keep accumulating over the incarnations of the slot
+Restart(P, s, o) ==
+  [s EXCEPT !.ph[o] = IF NOps(P, o) = 0 THEN "done" ELSE "run", !.pc[o] = 1, !.sub[o] = 1, !.res[o] = "none", !.pres[o] = "none",
+            !.blk[o] = NoBlk, !.tmr[o] = -1, !.hnd[o] = <<>>, !.cur[o] = 0, !.rval[o] = 0,
+            !.oe[o] = s.arl[o], !.oex[o] = <<>>, !.oerun[o] = <<>>,
+            !.dmn[o] = s.ard[o], !.kt[o] = IF s.ark[o] > s.now THEN s.ark[o] ELSE -1, !.aron[o] = TRUE, !.susp[o] = FALSE]
+
 Keep(s, a, r) == [s EXCEPT !.hnd[a] = Append(@, [c |-> s.cur[a], r |-> r, seen |-> FALSE])]
 \* Once an actor has observed the completion of one of its handles (wait returned, test said true), the s4u object is
 \* FINISHED and a later test() on it returns true at once without any simcall (Activity::wait_for always does a simcall).
@@ -290,8 +306,9 @@ OnHandle(op) == op.op \in {"wait", "waitfor", "test"}
 IsLocal(P, s, a) == LET op == Cur(P, s, a) IN
                     \/ op.op = "test" /\ op.o <= Len(s.hnd[a]) /\ s.hnd[a][op.o].seen
                     \/ op.op \in {"kill", "suspend", "resume"} /\ s.ph[op.o] = "unborn"        \* nobody there yet: no simcall
+                    \/ op.op = "autorestart" /\ s.aron[a]            \* already set (restarted incarnation): no simcall
 LocalRet(P, s, a) == LET op == Cur(P, s, a) IN
-                     IF op.op \in {"kill", "suspend", "resume"} THEN Answer(s, a, "ok")
+                     IF op.op \in {"kill", "suspend", "resume", "autorestart"} THEN Answer(s, a, "ok")
                      ELSE LET h == s.hnd[a][op.o] IN
                           AnswerV(s, a, "true", IF h.r /\ s.act[h.c].st = "done" THEN s.act[h.c].pay ELSE 0)       \* an asynchronous operation returns a handle
 
@@ -382,7 +399,13 @@ HandleRun(P, s, a) ==
     [] k = "resume"   -> IF ~Suspendable(s, o) THEN Answer(s, a, "ok") ELSE Answer(Resume(s, o), a, "ok")
     \* ---- resource failures (o = host = actor number)
     [] k = "hostoff" -> IF o = a THEN Undef(s, a) ELSE Answer(HostOff(P, s, o), a, "ok")
-    [] k = "hoston"  -> Answer([s EXCEPT !.hoff[o] = FALSE], a, "ok")
+    \* Host::turn_on boots again every actor whose start record the host kept (HostImpl::actors_at_boot_): a new incarnation
+    \* with the recorded callbacks, kill time and daemon flag. (A previous incarnation that has not finished dying: not modelled.)
+    [] k = "hoston"  -> IF s.hoff[o] /\ s.ar[o]
+                        THEN (IF s.ph[o] \in {"done", "dead"} THEN Answer(Restart(P, [s EXCEPT !.hoff[o] = FALSE], o), a, "ok") ELSE Undef(s, a))
+                        ELSE Answer([s EXCEPT !.hoff[o] = FALSE], a, "ok")
+    \* Actor::set_auto_restart(true) on oneself: the host records how to start the actor again (the callback list is shared)
+    [] k = "autorestart" -> Answer([s EXCEPT !.ar[a] = TRUE, !.aron[a] = TRUE, !.reg[a] = TRUE, !.ark[a] = s.kt[a], !.ard[a] = s.dmn[a]], a, "ok")
     [] k = "linkoff" -> Answer(LinkOff(P, s), a, "ok")
     [] k = "linkon"  -> Answer([s EXCEPT !.loff = FALSE], a, "ok")
     [] OTHER -> Abort(s, a)
